@@ -42,6 +42,11 @@ def register(R):
                 any(s.extra['env']['exception'] is f.extra['raised'] and index_of(tr, s) > index_of(tr, f) for s in se)
                 for f in failed)),
             'no_spurious_set_exception': B(len(se) == len(failed)),
+            # a task's failure never overrides an outcome recorded earlier (first failure / cancellation wins, C17 / C07):
+            # it is recorded without `override`, also by the final task
+            'task_failure_never_overrides_an_earlier_outcome': (B(all(
+                s.extra['env'].get('override') in (False, None) or (isinstance(s.extra['env'].get('override'), tuple) and s.extra['env']['override'][0] == '$default')
+                for s in se)), ['C17', 'C07', 'C03']),
             'main_runs_at_most_once': B(len(em) <= 1),
             # a task (in particular the final one, which announces done and so triggers the cleanups / abort)
             # first waits for every future it depends on, on every path
@@ -73,7 +78,7 @@ def register(R):
         return out
 
     R.contract(
-        f'{TASK}.__call__', props=['C03', 'C04', 'C05', 'C07', 'C08'], params=dict(ctx=ExtT('ctx')),
+        f'{TASK}.__call__', props=['C03', 'C04', 'C05', 'C07', 'C08', 'C17'], params=dict(ctx=ExtT('ctx')),
         checks=call_checks,
         raises={},  # never propagates an Exception of the task body
         loops={0: trivial_loop()},
